@@ -4,7 +4,9 @@ package main
 import (
 	"fmt"
 	"os"
+	"runtime/pprof"
 
+	"verifharness/c01"
 	"verifharness/c05"
 	"verifharness/c06"
 	"verifharness/c09"
@@ -15,6 +17,7 @@ import (
 )
 
 var runners = map[string]func(*wk.Job, *wk.Worker) error{
+	"c01": c01.Run,
 	"c05": c05.Run,
 	"c06": c06.Run,
 	"c09": c09.Run,
@@ -26,22 +29,28 @@ var runners = map[string]func(*wk.Job, *wk.Worker) error{
 func main() {
 	if len(os.Args) < 3 {
 		fmt.Fprintln(os.Stderr, "usage: vharness <runner> <job.json>")
-		os.Exit(2)
+		os.Exit(64)
 	}
 	run, ok := runners[os.Args[1]]
 	if !ok {
 		fmt.Fprintln(os.Stderr, "unknown runner", os.Args[1])
-		os.Exit(2)
+		os.Exit(64)
 	}
 	job, err := wk.LoadJob(os.Args[2])
 	if err != nil {
 		fmt.Fprintln(os.Stderr, "job:", err)
-		os.Exit(2)
+		os.Exit(64)
+	}
+	if pf := os.Getenv("VERIF_PROFILE"); pf != "" {
+		if f, err := os.Create(pf); err == nil {
+			_ = pprof.StartCPUProfile(f)
+			defer pprof.StopCPUProfile()
+		}
 	}
 	w := wk.New(job)
 	if err := run(job, w); err != nil {
 		fmt.Fprintln(os.Stderr, "runner error:", err)
-		os.Exit(3)
+		os.Exit(65)
 	}
 	w.Finish()
 }
